@@ -355,4 +355,48 @@ theorem msg_lookup_extracted (cfg : Cfg) (cat : Catalog) (ctx : Ctx) (ta : Bool)
         right
         simp [idsOf, ← h, hid]
 
+/-- element form `<i18n:msg params="…">first mid last</i18n:msg>`, the content neither starting
+    with a START nor ending with an END event (finding C19-msg-element-first-child) -/
+theorem msg_lookup_extracted_elem (cfg : Cfg) (cat : Catalog) (ctx : Ctx) (ta : Bool) (skip : Nat)
+    (ps : List Str) (st : Bool) (cs xs : List Str) (first last : TEvent) (mid : List TEvent)
+    (hf : first.isStart = false) (hl : last.isEnd = false)
+    (hns : noSubList (first :: (mid ++ [last])) = true) (id : Str)
+    (h : msgId ps (trList cfg cat ctx false ta skip (first :: (mid ++ [last]))) = .ok (some id)) :
+    ∃ ms, msgExtract cfg ps st cs xs (first :: (mid ++ [last])) = .ok ms ∧ id ∈ idsOf ms := by
+  rw [← msgId_sameShape ps _ _ (trList_sameShape cfg cat ctx ta _ skip hns)] at h
+  rw [msgId_eq ps _ (by simp)] at h
+  have hbody : msgBody (first :: (mid ++ [last])) = (first :: mid) ++ [last] := by
+    simp [msgBody, hf, hl]
+  rw [hbody, mbAppendList_append'] at h
+  cases hb : mbAppendList (MB.new ps) (first :: mid) with
+  | error err => rw [hb] at h; simp [Except.map, Except.bind] at h
+  | ok b =>
+    rw [hb] at h
+    simp only [Except.bind, mbAppendList_single'] at h
+    cases hb2 : mbAppend b last with
+    | error err => rw [hb2] at h; simp [Except.map] at h
+    | ok b2 =>
+      rw [hb2] at h
+      simp only [Except.map, Except.ok.injEq, Option.some.injEq] at h
+      have hall := appendAll_buffer cfg st (first :: mid) (MB.new ps)
+      rw [hb] at hall
+      cases ha : appendAll cfg st (MB.new ps) (first :: mid) with
+      | error err => rw [ha] at hall; simp [Except.map] at hall
+      | ok r =>
+        rw [ha] at hall
+        simp only [Except.map, Except.ok.injEq] at hall
+        obtain ⟨m, hm, hid⟩ := contextify_none_ok b2.format (lastSlice cs) (lastSlice xs)
+        refine ⟨r.1 ++ exprCode last ++ [m], ?_, ?_⟩
+        · have hdl : (first :: (mid ++ [last])).dropLast = first :: mid := by
+            rw [show first :: (mid ++ [last]) = (first :: mid) ++ [last] by simp, List.dropLast_concat]
+          have hgl : (first :: (mid ++ [last])).getLast? = some last := by
+            rw [show first :: (mid ++ [last]) = (first :: mid) ++ [last] by simp, List.getLast?_append]; simp
+          simp only [msgExtract, hf, Bool.false_eq_true, ↓reduceIte, hdl, hgl, Option.getD_some, ha, bind, Except.bind]
+          rw [show r.2 = b from hall]
+          simp [hb2, hm, pure, Except.pure]
+        · rw [idsOf_append]
+          simp only [List.mem_append]
+          right
+          simp [idsOf, ← h, hid]
+
 end Genshi.I18n
